@@ -327,13 +327,15 @@ def nontrivial(payload, md):
         return md.get('all') == '1' and md.get('dall') != doc
     return False
 
-LEVEL_TEXT = ('Coq theorems over an executable model of common/web: JSON Pointer string round trip and IsPrefixOf '
-              'for every token sequence; array-index tokens and pointer evaluation equal RFC 6901; JsonData::Apply '
-              'is atomic; a patch program that avoids four recorded, unit-test-enshrined departures from RFC 6902 '
-              'gives exactly the result of an independent RFC 6901/6902 specification (c19_patch_rfc_partial, with '
-              'c19_patch_rfc_refuted for the unguarded statement). NOT proved: parser totality (c19_total) and the '
-              'write-then-parse identity (c19_roundtrip); the lexer/parser/writer are modelled (explicit fuel hazard, '
-              'depth limit) and only checked per generated input by the correspondence run.')
+LEVEL_TEXT = ('Coq theorems over an executable model of common/web, for all inputs: the parser is total (c19_total: '
+              'never exhausts its recursion budget 2*length+2, never has more than MAX_DEPTH containers open, returns '
+              'an error or a value); write-then-parse is the identity on every guarded value tree (c19_roundtrip: '
+              'printable-ASCII strings/keys, 32/64-bit integers, booleans, null, arrays, objects with sorted unique '
+              'keys, depth <= MAX_DEPTH, canonical IsComplexType flags: parsed tree equal by operator== and re-written '
+              'to the same text); JSON Pointers round-trip for every token sequence and IsPrefixOf/index/evaluation '
+              'equal RFC 6901; JsonData::Apply is atomic; a patch program avoiding four recorded, unit-test-enshrined '
+              'departures gives exactly the result of an independent RFC 6902 specification (c19_patch_rfc_partial; '
+              'c19_patch_rfc_refuted and c19_roundtrip_flag_refuted carry the witnesses of the known findings).')
 LEVEL_NOTE = ('Trusted: Coq kernel, extraction (ExtrOcamlBasic), OCaml/C++ glue, generator coverage; model = code is '
               'validated by differential testing against an ASan/UBSan build of the working tree, not proved. '
               'Doubles are an opaque leaf (no arithmetic); JsonPatchParser is not modelled; std::map is modelled '
